@@ -61,6 +61,15 @@ theories/C21/Proofs.vos theories/C21/Proofs.vok theories/C21/Proofs.required_vos
 theories/C21/Props.vo theories/C21/Props.glob theories/C21/Props.v.beautified theories/C21/Props.required_vo: theories/C21/Props.v theories/Base/Tactics.vo theories/C21/Model.vo theories/C21/Proofs.vo
 theories/C21/Props.vio: theories/C21/Props.v theories/Base/Tactics.vio theories/C21/Model.vio theories/C21/Proofs.vio
 theories/C21/Props.vos theories/C21/Props.vok theories/C21/Props.required_vos: theories/C21/Props.v theories/Base/Tactics.vos theories/C21/Model.vos theories/C21/Proofs.vos
+theories/C22/Model.vo theories/C22/Model.glob theories/C22/Model.v.beautified theories/C22/Model.required_vo: theories/C22/Model.v 
+theories/C22/Model.vio: theories/C22/Model.v 
+theories/C22/Model.vos theories/C22/Model.vok theories/C22/Model.required_vos: theories/C22/Model.v 
+theories/C22/Proofs.vo theories/C22/Proofs.glob theories/C22/Proofs.v.beautified theories/C22/Proofs.required_vo: theories/C22/Proofs.v theories/C22/Model.vo
+theories/C22/Proofs.vio: theories/C22/Proofs.v theories/C22/Model.vio
+theories/C22/Proofs.vos theories/C22/Proofs.vok theories/C22/Proofs.required_vos: theories/C22/Proofs.v theories/C22/Model.vos
+theories/C22/Props.vo theories/C22/Props.glob theories/C22/Props.v.beautified theories/C22/Props.required_vo: theories/C22/Props.v theories/C22/Model.vo theories/C22/Proofs.vo
+theories/C22/Props.vio: theories/C22/Props.v theories/C22/Model.vio theories/C22/Proofs.vio
+theories/C22/Props.vos theories/C22/Props.vok theories/C22/Props.required_vos: theories/C22/Props.v theories/C22/Model.vos theories/C22/Proofs.vos
 theories/C25/Examples.vo theories/C25/Examples.glob theories/C25/Examples.v.beautified theories/C25/Examples.required_vo: theories/C25/Examples.v theories/Base/Tactics.vo theories/Lib/ArchTree.vo theories/C25/Model.vo
 theories/C25/Examples.vio: theories/C25/Examples.v theories/Base/Tactics.vio theories/Lib/ArchTree.vio theories/C25/Model.vio
 theories/C25/Examples.vos theories/C25/Examples.vok theories/C25/Examples.required_vos: theories/C25/Examples.v theories/Base/Tactics.vos theories/Lib/ArchTree.vos theories/C25/Model.vos
